@@ -160,7 +160,8 @@ def _parse_member(cls, text):
 class Api:
     def __init__(self):
         self.classes = {}     # name -> {header, base, template_default, members:[...], nested_in}
-        self.free = []        # free function templates: {name, params, ret, header}
+        self.free = []        # free operator templates: {name, params, ret, header}
+        self.functions = []   # free non-operator function templates: {name, ns, ret, params, constexpr, tparams, header}
         self.hashes = []      # class names with std::hash specialisation
         self.skipped = []     # (where, text, why)
         self._load()
@@ -187,6 +188,7 @@ class Api:
             text = _read(path)
             self._classes(inc, text)
             self._free(inc, text)
+            self._functions(inc, text)
             for m in re.finditer(r"struct\s+hash<\s*PhQ::([\w:]+)(?:<\s*NumericType\s*>)?\s*>", text):
                 self.hashes.append(m.group(1))
 
@@ -239,9 +241,60 @@ class Api:
                 continue
             self.free.append({"name": name, "ret": ret, "params": ps, "header": inc})
 
+    @staticmethod
+    def _at_namespace_scope(text, pos):
+        stack = []
+        i = 0
+        while i < pos:
+            c = text[i]
+            if c == '"':
+                i += 1
+                while i < pos and text[i] != '"':
+                    i += 2 if text[i] == "\\" else 1
+            elif c == "{":
+                head = text[max(0, i - 80):i]
+                stack.append(bool(re.search(r"namespace(\s+[\w:]+)?\s*$", head)))
+            elif c == "}":
+                if stack:
+                    stack.pop()
+            i += 1
+        return all(stack)
+
+    def _functions(self, inc, text):
+        """free, non-operator function templates over NumericType at namespace scope (in the pinned tree: the std:: math
+        overloads for dimensionless scalars); out-of-class member definitions (qualified names) are not these"""
+        std_spans = []
+        for m in re.finditer(r"namespace\s+std\s*\{", text):
+            end = _match(text, m.end() - 1, "{", "}")
+            std_spans.append((m.start(), end if end > 0 else len(text)))
+        for m in re.finditer(r"\n(template\s*<\s*typename\s+NumericType\s*(?:,\s*typename\s+OtherNumericType\s*)?>\s*)((?:\[\[nodiscard\]\]\s*)?(?:inline\s+|constexpr\s+|static\s+)*)"
+                             r"([\w:<>&\s,]+?)\s+(\w+)\s*\(", text):
+            name = m.group(4)
+            ret = re.sub(r"\s+", " ", m.group(3)).strip()
+            if name == "operator" or ret.endswith("::") or ret.endswith(":") or ret in ("class", "struct"):
+                continue
+            lp = m.end() - 1
+            rp = _match(text, lp, "(", ")")
+            if rp < 0:
+                continue
+            after = text[rp + 1:rp + 40]
+            if not re.match(r"\s*(?:const\s*)?(?:noexcept\s*)?\{", after):
+                continue   # declaration only, or a member definition with trailing qualifiers we do not model
+            # inside a class or function body?  (member templates are handled with their class)
+            if not self._at_namespace_scope(text, m.start()):
+                continue
+            ps = []
+            for p in _split_params(re.sub(r"\s+", " ", text[lp + 1:rp])):
+                ty, mut = _param_type(p)
+                ps.append({"type": ty, "mutable_ref": mut, "raw": p})
+            ns = "std" if any(a <= m.start() < b for a, b in std_spans) else "PhQ"
+            self.functions.append({"name": name, "ns": ns, "ret": ret, "params": ps, "constexpr": "constexpr" in m.group(2),
+                                   "two_types": "OtherNumericType" in m.group(1), "header": inc})
+
     def summary(self):
         n = sum(len(c["members"]) for c in self.classes.values())
-        return {"classes": len(self.classes), "public_members": n, "free_operator_templates": len(self.free), "hash_specialisations": len(self.hashes)}
+        return {"classes": len(self.classes), "public_members": n, "free_operator_templates": len(self.free),
+                "free_function_templates": len(self.functions), "hash_specialisations": len(self.hashes)}
 
 
 if __name__ == "__main__":
